@@ -682,6 +682,9 @@ class Interp:
                      'is_ascii_alphanumeric': ch.isascii() and ch.isalnum(), 'is_ascii_punctuation': ch.isascii() and not ch.isalnum() and not ch.isspace() and ch.isprintable()}
             if name in table:
                 return C(bool(table[name])), args
+        # a known character written as text: `c.encode_utf8(&mut buf)` is the one-character string (the buffer's contents are not modelled)
+        if not c.get('local') and name == 'encode_utf8' and 'char' in d and len(args) == 2 and args[0][0] == 'c' and isinstance(args[0][1], str) and len(args[0][1]) == 1:
+            return C(args[0][1]), args
         # `f(args)` where f: impl Fn* and its value is known on this path
         if name in ('call', 'call_mut', 'call_once') and path_endswith(tr, ('ops::Fn', 'ops::FnMut', 'ops::FnOnce')[('call', 'call_mut', 'call_once').index(name)]) \
                 and len(args) == 2 and args[0][0] in ('fn', 'closure') and args[1][0] == 'tuple' and depth < self.max_depth:
